@@ -360,3 +360,518 @@ pub proof fn thm_c14_nren_co2(comps: Components, comps2: Components, w: Seq<Fact
     lemma_csum_le(dom, gsel(bcr, f3), gsel(bcr2, f3), carriers12());
     lemma_csum_le(dom, gsel(bcr, f4), gsel(bcr2, f4), carriers12());
 }
+
+// ================================================================================================ with cogenerated electricity
+/// u(x) - u(y) <= (y - x) fm(y) from 1 on (sharper than lemma_u_lip_high)
+pub proof fn lemma_u_fm_high(x: real, y: real)
+    requires 1real <= x <= y,
+    ensures uz(x) <= uz(y) + (y - x) * fm_of_x(y), fm_of_x(y) >= 0real,
+{
+    let dx = x * x + 1real; let dy = y * y + 1real; let ny = y * y - y + 1real;
+    lemma_fm_poly(y);
+    assert(dx >= x && dx > 0real) by(nonlinear_arith) requires dx == x * x + 1real, x >= 1real;
+    assert(dy > 0real) by(nonlinear_arith) requires dy == y * y + 1real;
+    assert(ny >= y) by(nonlinear_arith) requires ny == y * y - y + 1real;
+    assert(ny * dx >= x * y) by(nonlinear_arith) requires ny >= y, dx >= x, x >= 1real, y >= 1real;
+    assert(x * (y * y + 1real) - y * (x * x + 1real) == (y - x) * (x * y - 1real)) by(nonlinear_arith);
+    let q = ny * dx;
+    assert((y - x) * (x * y - 1real) <= (y - x) * q) by(nonlinear_arith) requires y - x >= 0real, x * y - 1real <= q;
+    let t = y + (y - x) * ny;
+    assert(t * dx == y * dx + (y - x) * q) by(nonlinear_arith) requires t == y + (y - x) * ny, q == ny * dx;
+    assert(x * dy <= t * dx);
+    lemma_div_le(x, dx, t, dy);
+    assert(t / dy == y / dy + (y - x) * (ny / dy)) by(nonlinear_arith) requires dy > 0real, t == y + (y - x) * ny;
+    assert(ny / dy >= 0real) by(nonlinear_arith) requires ny >= y, y >= 1real, dy > 0real;
+}
+/// the cogenerated electricity used on site does not increase when the on-site production grows
+pub proof fn lemma_cg_mono(lm: bool, pv: real, pv2: real, chp: real, us: real)
+    requires 0real <= pv <= pv2, chp >= 0real, us >= 0real,
+    ensures pri_cogen(pv2, chp, us, fmatch(lm, pv2 + chp, us)) <= pri_cogen(pv, chp, us, fmatch(lm, pv + chp, us)),
+{
+    let m1 = rmin(chp, us - rmin(pv, us)); let m2 = rmin(chp, us - rmin(pv2, us));
+    let f1 = fmatch(lm, pv + chp, us); let f2 = fmatch(lm, pv2 + chp, us);
+    lemma_fmatch_range(lm, pv + chp, us); lemma_fmatch_range(lm, pv2 + chp, us);
+    assert(0real <= m2 <= m1);
+    if m2 == 0real {
+        lemma_mul0(f2);
+        assert(m1 * f1 >= 0real) by(nonlinear_arith) requires m1 >= 0real, f1 >= 0real;
+    } else if !lm {
+        assert(m2 * 1real <= m1 * 1real) by(nonlinear_arith) requires m2 <= m1;
+    } else {
+        // m2 > 0: pv2 < us, chp > 0, us > 0
+        assert(pv2 < us && chp > 0real && us > 0real);
+        let pt = pv + chp; let pt2 = pv2 + chp;
+        if pt2 <= us {
+            lemma_cg_low(pv, pv2, chp, us);
+        } else if pt >= us {
+            lemma_cg_high(pv, pv2, chp, us);
+        } else {
+            let pvs = us - chp;
+            assert(pv < pvs < pv2);
+            lemma_cg_low(pv, pvs, chp, us);
+            lemma_cg_high(pvs, pv2, chp, us);
+        }
+    }
+}
+pub proof fn lemma_cg_low(pv: real, pv2: real, chp: real, us: real)
+    requires 0real <= pv <= pv2, chp > 0real, us > 0real, pv2 + chp <= us,
+    ensures pri_cogen(pv2, chp, us, fmatch(true, pv2 + chp, us)) <= pri_cogen(pv, chp, us, fmatch(true, pv + chp, us)),
+{
+    let pt = pv + chp; let pt2 = pv2 + chp;
+    let x = pt / us; let y = pt2 / us;
+    assert(0real < x <= y <= 1real) by(nonlinear_arith) requires 0real < pt <= pt2, pt2 <= us, us > 0real, x == pt / us, y == pt2 / us;
+    lemma_fmatch_stages(pt, us); lemma_fmatch_stages(pt2, us);
+    assert(fmatch(true, pt, us) == fm_of_x(x) && fmatch(true, pt2, us) == fm_of_x(y));
+    lemma_fm_u(x); lemma_fm_u(y); lemma_u_mono_low(x, y);
+    let f1 = fm_of_x(x); let f2 = fm_of_x(y);
+    assert(rmin(chp, us - rmin(pv, us)) == chp && rmin(chp, us - rmin(pv2, us)) == chp);
+    assert(chp * f2 <= chp * f1) by(nonlinear_arith) requires chp > 0real, f2 <= f1;
+}
+pub proof fn lemma_cg_high(pv: real, pv2: real, chp: real, us: real)
+    requires 0real <= pv <= pv2, chp > 0real, us > 0real, pv + chp >= us, pv2 < us,
+    ensures pri_cogen(pv2, chp, us, fmatch(true, pv2 + chp, us)) <= pri_cogen(pv, chp, us, fmatch(true, pv + chp, us)),
+{
+    let pt = pv + chp; let pt2 = pv2 + chp;
+    let x = pt / us; let y = pt2 / us;
+    assert(1real <= x <= y && x * us == pt && y * us == pt2) by(nonlinear_arith) requires us <= pt <= pt2, us > 0real, x == pt / us, y == pt2 / us;
+    lemma_fmatch_stages(pt, us); lemma_fmatch_stages(pt2, us);
+    assert(fmatch(true, pt, us) == fm_of_x(x) && fmatch(true, pt2, us) == fm_of_x(y));
+    lemma_fm_u(x); lemma_fm_u(y); lemma_u_fm_high(x, y);
+    let f1 = fm_of_x(x); let f2 = fm_of_x(y);
+    let a = us - pv; let d = pv2 - pv;
+    assert(rmin(chp, us - rmin(pv, us)) == a && rmin(chp, us - rmin(pv2, us)) == a - d);
+    // f2 - f1 = u(x) - u(y) <= (y - x) f2 ;  (y - x) us = d ;  a <= us
+    assert((y - x) * us == d) by(nonlinear_arith) requires x * us == pt, y * us == pt2, d == pt2 - pt;
+    assert(f2 - f1 <= (y - x) * f2);
+    assert(a * (f2 - f1) <= a * ((y - x) * f2)) by(nonlinear_arith) requires a >= 0real, f2 - f1 <= (y - x) * f2;
+    let z = (y - x) * f2;
+    assert(z >= 0real) by(nonlinear_arith) requires y - x >= 0real, f2 >= 0real, z == (y - x) * f2;
+    assert(a * z <= us * z) by(nonlinear_arith) requires 0real <= a <= us, z >= 0real;
+    assert(us * ((y - x) * f2) == d * f2) by(nonlinear_arith) requires (y - x) * us == d;
+    assert((a - d) * f2 == a * f2 - d * f2 && a * (f2 - f1) == a * f2 - a * f1) by(nonlinear_arith);
+}
+
+// ------------------------------------------------------------------------------------------------ exports by source add up
+pub proof fn lemma_c14_esv(a: Run, s: ProdSource, f: spec_fn(int) -> real)
+    requires ced_post(a.used, a.prod, a.exp, a.del), forall|i: int| #[trigger] f(i) == mv(a.exp.by_src_t@, s, i),
+    ensures fsum(f, run_n(a)) == mval(a.exp.by_src_an@, s),
+{
+    let m = a.exp.by_src_t@;
+    assert(a.exp.by_src_an@.contains_key(s) == m.contains_key(s));
+    if m.contains_key(s) {
+        assert(a.prod.by_src_t@.contains_key(s));
+        assert(m[s]@.len() == run_n(a));
+        assert forall|i: int| 0 <= i < m[s]@.len() implies #[trigger] f(i) == rv(m[s]@[i]) by { assert(f(i) == mv(m, s, i)); }
+        lemma_fsum_sumf(m[s]@, f);
+        assert(rv(a.exp.by_src_an@[s]) == sumf(m[s]@));
+    } else {
+        assert forall|i: int| 0 <= i < run_n(a) implies #[trigger] f(i) == 0real by { assert(f(i) == mv(m, s, i)); }
+        lemma_fsum_zero(f, run_n(a));
+    }
+}
+/// electricity: the exports of the two possible sources add up to the exported energy
+#[verifier::spinoff_prover]
+pub proof fn lemma_c14_src_sum(a: Run, lm: bool)
+    requires run_ok(a, lm), nonneg_list(a.cs), wf_list(a.cs, run_n(a) as nat), same_carrier(a.cs, Carrier::ELECTRICIDAD), clear_run(a),
+    ensures !a.exp.by_src_an@.contains_key(ProdSource::TERMOSOLAR), !a.exp.by_src_an@.contains_key(ProdSource::EAMBIENTE),
+            mval(a.exp.by_src_an@, ProdSource::EL_INSITU) + mval(a.exp.by_src_an@, ProdSource::EL_COGEN) == rv(a.exp.an),
+{
+    let el = Carrier::ELECTRICIDAD; let pv = ProdSource::EL_INSITU; let cgs = ProdSource::EL_COGEN; let n = run_n(a);
+    let mp = a.prod.by_src_t@; let mu = a.prod.epus_by_src_t@; let me = a.exp.by_src_t@;
+    assert(e_has_carrier(a.cs[0], el));
+    assert(!mp.contains_key(ProdSource::TERMOSOLAR)) by { if any_sel(a.cs, Sel::Prod(ProdSource::TERMOSOLAR)) { lemma_has_prod_carrier(a.cs, el, ProdSource::TERMOSOLAR); } }
+    assert(!mp.contains_key(ProdSource::EAMBIENTE)) by { if any_sel(a.cs, Sel::Prod(ProdSource::EAMBIENTE)) { lemma_has_prod_carrier(a.cs, el, ProdSource::EAMBIENTE); } }
+    assert(me.dom() =~= mp.dom() && a.exp.by_src_an@.dom() =~= mp.dom());
+    assert(flows_shape(a.used, a.prod));
+    let f1 = |i: int| mv(me, pv, i); let f2 = |i: int| mv(me, cgs, i); let f3 = |i: int| 0real; let g = |i: int| rv(a.exp.t@[i]);
+    assert(a.exp.t@.len() == n);
+    assert forall|i: int| 0 <= i < n implies #[trigger] g(i) == f1(i) + f2(i) + f3(i) by {
+        assert(rv(a.used.epus_t@[i]) >= 0real);
+        assert(all_src_sum(mu, i) == rv(a.prod.epus_t@[i]));
+        assert(rv(a.prod.t@[i]) == all_src_sum(mp, i));
+        assert(rv(a.exp.t@[i]) == rv(a.prod.t@[i]) - rv(a.prod.epus_t@[i]));
+        if pri(e_carrier(a.cs[0]), mp) { assert(mu.dom() =~= set![pv, cgs]); } else { assert(mu.dom() =~= mp.dom()); }
+        assert(!mu.contains_key(ProdSource::TERMOSOLAR) && !mu.contains_key(ProdSource::EAMBIENTE));
+        assert(mp.contains_key(pv) == mu.contains_key(pv) && mp.contains_key(cgs) == mu.contains_key(cgs));
+        if mp.contains_key(pv) { assert(rv(me[pv]@[i]) == rv(mp[pv]@[i]) - rv(mu[pv]@[i])); }
+        if mp.contains_key(cgs) { assert(rv(me[cgs]@[i]) == rv(mp[cgs]@[i]) - rv(mu[cgs]@[i])); }
+    }
+    lemma_fsum_add3(f1, f2, f3, g, n);
+    assert forall|i: int| 0 <= i < n implies #[trigger] f3(i) == 0real by {}
+    lemma_fsum_zero(f3, n);
+    assert forall|i: int| 0 <= i < a.exp.t@.len() implies #[trigger] g(i) == rv(a.exp.t@[i]) by {}
+    lemma_fsum_sumf(a.exp.t@, g);
+    lemma_exp_an_sum(a);
+    lemma_c14_esv(a, pv, f1); lemma_c14_esv(a, cgs, f2);
+}
+/// the factors of cogenerated electricity (derived by add_cgn_factors): step A = G, step B = grid factor, to both destinations
+pub open spec fn c14_cgn_shape(wf: Seq<Factor>, y: int, gy: real) -> bool {
+    let el = Carrier::ELECTRICIDAD;
+    &&& gy >= 0real
+    &&& py(fp(wf, el, Source::COGEN, Dest::A_NEPB, Step::A), y) == gy && py(fp(wf, el, Source::COGEN, Dest::A_RED, Step::A), y) == gy
+    &&& py(fp(wf, el, Source::COGEN, Dest::A_NEPB, Step::B), y) == py(fgrid(wf, el), y) && py(fp(wf, el, Source::COGEN, Dest::A_RED, Step::B), y) == py(fgrid(wf, el), y)
+}
+pub proof fn lemma_c14_wterm(e: real, en: real, f: real)
+    requires en > 0real,
+    ensures en * ((e / en) * f) == e * f,
+{
+    assert(en * (e / en) == e) by(nonlinear_arith) requires en > 0real;
+    assert(en * ((e / en) * f) == (en * (e / en)) * f) by(nonlinear_arith);
+}
+/// closed form of the electricity balance (y: non-renewable / CO2 part) with on-site and cogenerated electricity:
+///   step A = fg (grid delivery + cogeneration input) - exported cogenerated x G
+///   step B = fg (grid delivery + cogeneration input - k exported) - (1 - k) exported cogenerated x G
+#[verifier::spinoff_prover]
+pub proof fn lemma_c14_el_form(wf: Seq<Factor>, a: Run, we: WeightedEnergy, k: real, y: int, gy: real)
+    requires cwe_post(wf, Carrier::ELECTRICIDAD, k, a.used, a.exp, a.del, Ok(we)), c14_shape(wf, y), c14_cgn_shape(wf, y, gy),
+             !a.exp.by_src_an@.contains_key(ProdSource::TERMOSOLAR), !a.exp.by_src_an@.contains_key(ProdSource::EAMBIENTE),
+             mval(a.exp.by_src_an@, ProdSource::EL_INSITU) + mval(a.exp.by_src_an@, ProdSource::EL_COGEN) == rv(a.exp.an),
+             mval(a.exp.by_src_an@, ProdSource::EL_INSITU) >= 0real, mval(a.exp.by_src_an@, ProdSource::EL_COGEN) >= 0real,
+             rv(a.exp.nepus_an) >= 0real, rv(a.exp.grid_an) >= 0real, rv(a.exp.an) == rv(a.exp.nepus_an) + rv(a.exp.grid_an), rv(a.del.cgn_an) == rv(a.used.cgnus_an),
+    ensures py(r3v(we.a), y) == py(fgrid(wf, Carrier::ELECTRICIDAD), y) * (rv(a.del.grid_an) + rv(a.used.cgnus_an)) - mval(a.exp.by_src_an@, ProdSource::EL_COGEN) * gy,
+            py(r3v(we.b), y) == py(fgrid(wf, Carrier::ELECTRICIDAD), y) * (rv(a.del.grid_an) + rv(a.used.cgnus_an) - k * rv(a.exp.an))
+                                - (1real - k) * (mval(a.exp.by_src_an@, ProdSource::EL_COGEN) * gy),
+{
+    let el = Carrier::ELECTRICIDAD; let pv = ProdSource::EL_INSITU; let cgs = ProdSource::EL_COGEN;
+    let exp = a.exp; let del = a.del; let m = exp.by_src_an@;
+    let en = rv(exp.an); let nn = rv(exp.nepus_an); let rr = rv(exp.grid_an);
+    let fg = py(fgrid(wf, el), y);
+    let gr = rv(del.grid_an); let cg = rv(a.used.cgnus_an); let ons = rv(del.onst_an);
+    let e1 = mval(m, pv); let e2 = mval(m, cgs);
+    assert(r3v(we.a) == we_a(wf, el, exp, del) && r3v(we.b) == we_b(wf, el, exp, del, k));
+    lemma_mul0(fg); lemma_mul0(ons); lemma_mul0(k); lemma_mul0(gy);
+    assert(py(we_del_onst(wf, el, del), y) == 0real);
+    assert(py(we_del(wf, el, del), y) == gr * fg + cg * fg);
+    lemma_dist2(fg, gr, cg);
+    assert(gr * fg == fg * gr && cg * fg == fg * cg) by(nonlinear_arith);
+    let dl = fg * (gr + cg);
+    assert(py(we_del(wf, el, del), y) == dl);
+    if en == 0real {
+        assert(e2 == 0real);
+        assert(we_exp(wf, el, exp, k) == r3z() && we_exp_a(wf, el, exp) == r3z());
+        lemma_dist2(fg, gr + cg, k * en);
+        lemma_mul0(1real - k);
+    } else {
+        assert(en > 0real);
+        // the four average factors of the exported energy (y part), multiplied by the exported energy
+        let ta = py(favg(wf, el, m, en, Dest::A_NEPB, Step::A), y); let tra = py(favg(wf, el, m, en, Dest::A_RED, Step::A), y);
+        let tb = py(favg(wf, el, m, en, Dest::A_NEPB, Step::B), y); let trb = py(favg(wf, el, m, en, Dest::A_RED, Step::B), y);
+        let w1 = e1 / en; let w2 = e2 / en;
+        lemma_mul0(w1); lemma_mul0(w2);
+        lemma_c14_wterm(e1, en, fg); lemma_c14_wterm(e2, en, fg); lemma_c14_wterm(e2, en, gy);
+        let c1 = if m.contains_key(pv) { w1 * fg } else { 0real };
+        let c2 = if m.contains_key(cgs) { w2 * fg } else { 0real };
+        let c3 = if m.contains_key(cgs) { w2 * gy } else { 0real };
+        assert(en * c1 == e1 * fg) by { if !m.contains_key(pv) { lemma_mul0(en); } }
+        assert(en * c2 == e2 * fg) by { if !m.contains_key(cgs) { lemma_mul0(en); } }
+        assert(en * c3 == e2 * gy) by { if !m.contains_key(cgs) { lemma_mul0(en); } }
+        assert(ta == c3 && tra == c3);
+        assert(tb == c1 + c2 && trb == c1 + c2);
+        assert(py(we_exp_nepus_a(wf, el, exp), y) == nn * c3) by { if nn == 0real { lemma_mul0(c3); } }
+        assert(py(we_exp_grid_a(wf, el, exp), y) == rr * c3) by { if rr == 0real { lemma_mul0(c3); } }
+        let ea = nn * c3 + rr * c3;
+        assert(py(we_exp_a(wf, el, exp), y) == ea);
+        assert(ea == en * c3) by(nonlinear_arith) requires en == nn + rr, ea == nn * c3 + rr * c3;
+        let dd = c1 + c2 - c3;
+        assert(py(we_exp_nepus_ab(wf, el, exp), y) == nn * dd) by { if nn == 0real { lemma_mul0(dd); } }
+        assert(py(we_exp_grid_ab(wf, el, exp), y) == rr * dd) by { if rr == 0real { lemma_mul0(dd); } }
+        let eab = nn * dd + rr * dd;
+        assert(py(we_exp_ab(wf, el, exp), y) == eab);
+        assert(eab == en * dd) by(nonlinear_arith) requires en == nn + rr, eab == nn * dd + rr * dd;
+        assert(en * dd == en * c1 + en * c2 - en * c3) by(nonlinear_arith) requires dd == c1 + c2 - c3;
+        assert(e1 * fg + e2 * fg == en * fg) by(nonlinear_arith) requires e1 + e2 == en;
+        let xg = e2 * gy;
+        assert(ea == xg && eab == en * fg - xg);
+        assert(py(we_exp(wf, el, exp, k), y) == ea + k * eab);
+        assert(py(r3v(we.a), y) == dl - xg);
+        assert(py(r3v(we.b), y) == dl - (xg + k * (en * fg - xg)));
+        assert(fg * (gr + cg - k * en) == dl - k * (en * fg)) by(nonlinear_arith) requires dl == fg * (gr + cg);
+        assert(k * (en * fg - xg) == k * (en * fg) - k * xg) by(nonlinear_arith);
+        assert((1real - k) * xg == xg - k * xg) by(nonlinear_arith);
+    }
+}
+pub proof fn lemma_no_pv(cs: Seq<Energy>)
+    requires !any_sel(cs, Sel::Prod(ProdSource::EL_INSITU)),
+    ensures forall|j: int| 0 <= j < cs.len() ==> !((#[trigger] cs[j]) is Prod && cs[j]->Prod_0.source == ProdSource::EL_INSITU),
+    decreases cs.len(),
+{
+    if cs.len() > 0 {
+        lemma_no_pv(cs.drop_last());
+        assert forall|j: int| 0 <= j < cs.len() implies !((#[trigger] cs[j]) is Prod && cs[j]->Prod_0.source == ProdSource::EL_INSITU) by {
+            if j < cs.len() - 1 { assert(cs.drop_last()[j] == cs[j]); } else { assert(cs[j] == cs.last()); }
+        }
+    }
+}
+/// two evaluations of one carrier from the same values under factor sets that read the same for the carrier: same weighted energy
+#[verifier::spinoff_prover]
+pub proof fn lemma_c14_same(wf1: Seq<Factor>, wf2: Seq<Factor>, c: Carrier, a: Run, b: Run, lm: bool, wa: WeightedEnergy, wb: WeightedEnergy, k: real)
+    requires run_ok(a, lm), run_ok(b, lm), run_n(a) == run_n(b), more_onsite_el(a.cs, b.cs), !any_sel(a.cs, Sel::Prod(ProdSource::EL_INSITU)),
+             wf_list(a.cs, run_n(a) as nat), same_carrier(a.cs, c), clear_run(a), clear_run(b), fp_same(wf1, wf2, c),
+             cwe_post(wf1, c, k, a.used, a.exp, a.del, Ok(wa)), cwe_post(wf2, c, k, b.used, b.exp, b.del, Ok(wb)),
+    ensures r3v(wb.a) == r3v(wa.a), r3v(wb.b) == r3v(wa.b),
+{
+    let n = run_n(a);
+    let idx = idx_ident(n);
+    lemma_no_pv(a.cs);
+    assert(e_has_carrier(a.cs[0], c));
+    lemma_sel_same(a.cs, b.cs);
+    assert(same_tags(a.cs[0], b.cs[0]));
+    lemma_same_tags_sel(a.cs[0], b.cs[0], Sel::Epus);
+    assert forall|i: int| 0 <= i < n implies #[trigger] val_rel(a.cs, b.cs, i, i, 1real) by {
+        assert forall|j: int| 0 <= j < a.cs.len() implies rv(#[trigger] e_vals(b.cs[j])[i]) == 1real * rv(e_vals(a.cs[j])[i]) by {
+            assert(e_vals(a.cs[j]).len() == n);
+            assert(!(a.cs[j] is Prod && a.cs[j]->Prod_0.source == ProdSource::EL_INSITU));
+            assert(rv(e_vals(b.cs[j])[i]) == rv(e_vals(a.cs[j])[i]));
+            assert(1real * rv(e_vals(a.cs[j])[i]) == rv(e_vals(a.cs[j])[i])) by(nonlinear_arith);
+        }
+    }
+    assert forall|i2: int| 0 <= i2 < idx.len() implies 0 <= #[trigger] idx[i2] < run_n(a) && acc_rel(a.cs, b.cs, idx[i2], i2, 1real)
+            && in_dom(rv(a.prod.t@[idx[i2]])) && in_dom(rv(b.prod.t@[i2])) by {
+        assert(idx[i2] == i2);
+        assert(val_rel(a.cs, b.cs, i2, i2, 1real));
+        lemma_acc_rel(a.cs, b.cs, i2, i2, 1real);
+    }
+    lemma_lay_same(n, 1real);
+    lemma_fp_same_lookups(wf1, wf2, c, a.exp, a.del);
+    thm_carrier(a, b, lm, idx, 1real, 1real, wf1, wf2, c, k, Ok(wa), Ok(wb));
+    let x = r3v(wa.a); let z = r3v(wa.b);
+    assert(1real * x.ren == x.ren && 1real * x.nren == x.nren && 1real * x.co2 == x.co2 && 1real * z.ren == z.ren && 1real * z.nren == z.nren && 1real * z.co2 == z.co2) by(nonlinear_arith);
+}
+/// electricity with on-site and cogenerated production, the second evaluation with more on-site production at some steps
+#[verifier::spinoff_prover]
+pub proof fn lemma_c14_el_pair2(wf1: Seq<Factor>, wf2: Seq<Factor>, a: Run, b: Run, lm: bool, wa: WeightedEnergy, wb: WeightedEnergy, k: real, y: int, gy: real)
+    requires run_ok(a, lm), run_ok(b, lm), run_n(a) == run_n(b), more_onsite_el(a.cs, b.cs), 0real <= k <= 1real,
+             nonneg_list(a.cs), wf_list(a.cs, run_n(a) as nat), same_carrier(a.cs, Carrier::ELECTRICIDAD), clear_run(a),
+             nonneg_list(b.cs), wf_list(b.cs, run_n(b) as nat), same_carrier(b.cs, Carrier::ELECTRICIDAD), clear_run(b),
+             any_sel(a.cs, Sel::Prod(ProdSource::EL_INSITU)), any_sel(a.cs, Sel::Prod(ProdSource::EL_COGEN)),
+             c14_shape(wf1, y), c14_shape(wf2, y), c14_cgn_shape(wf1, y, gy), c14_cgn_shape(wf2, y, gy),
+             py(fgrid(wf1, Carrier::ELECTRICIDAD), y) == py(fgrid(wf2, Carrier::ELECTRICIDAD), y),
+             cwe_post(wf1, Carrier::ELECTRICIDAD, k, a.used, a.exp, a.del, Ok(wa)), cwe_post(wf2, Carrier::ELECTRICIDAD, k, b.used, b.exp, b.del, Ok(wb)),
+    ensures py(r3v(wb.a), y) <= py(r3v(wa.a), y), py(r3v(wb.b), y) <= py(r3v(wa.b), y),
+{
+    let n = run_n(a) as nat; let el = Carrier::ELECTRICIDAD; let pv = ProdSource::EL_INSITU; let cgs = ProdSource::EL_COGEN;
+    assert(e_has_carrier(a.cs[0], el) && e_has_carrier(b.cs[0], el));
+    assert forall|q: Sel| #[trigger] any_sel(b.cs, q) == any_sel(a.cs, q) by { lemma_any_sel_tags(a.cs, b.cs, q); }
+    assert forall|i: int| 0 <= i < n implies #[trigger] acc(b.cs, Sel::Epus, i) == acc(a.cs, Sel::Epus, i) by { lemma_more_onsite_acc(a.cs, b.cs, Sel::Epus, i, n); }
+    assert forall|s: ProdSource, i: int| 0 <= i < n implies #[trigger] acc(b.cs, Sel::Prod(s), i) >= acc(a.cs, Sel::Prod(s), i) by { lemma_more_onsite_acc(a.cs, b.cs, Sel::Prod(s), i, n); }
+    thm_c14_grid_carrier(a, b, lm);
+    lemma_c13_flows(a, lm); lemma_c13_flows(b, lm);
+    lemma_c14_src_sum(a, lm); lemma_c14_src_sum(b, lm);
+    assert(esv(a, pv) >= 0real && esv(a, cgs) >= 0real && esv(b, pv) >= 0real && esv(b, cgs) >= 0real);
+    lemma_c14_el_form(wf1, a, wa, k, y, gy); lemma_c14_el_form(wf2, b, wb, k, y, gy);
+    // cogeneration input unchanged
+    assert forall|i: int| 0 <= i < a.used.cgnus_t@.len() implies rv(#[trigger] a.used.cgnus_t@[i]) == rv(b.used.cgnus_t@[i]) by { lemma_more_onsite_acc(a.cs, b.cs, Sel::Cgn, i, n); }
+    lemma_sumf_eq(a.used.cgnus_t@, b.used.cgnus_t@);
+    let ma = a.prod.by_src_t@; let mb = b.prod.by_src_t@;
+    assert(ma.contains_key(pv) && ma.contains_key(cgs) && mb.contains_key(pv) && mb.contains_key(cgs));
+    assert(pri(e_carrier(a.cs[0]), ma) && pri(e_carrier(b.cs[0]), mb));
+    assert(!ma.contains_key(ProdSource::TERMOSOLAR) && !ma.contains_key(ProdSource::EAMBIENTE) && !mb.contains_key(ProdSource::TERMOSOLAR) && !mb.contains_key(ProdSource::EAMBIENTE));
+    // per step: total production grows, cogenerated production is the same, the cogenerated electricity used on site does not grow
+    lemma_exp_an_sum(a); lemma_exp_an_sum(b);
+    let va = a.exp.by_src_t@[cgs]@; let vb = b.exp.by_src_t@[cgs]@;
+    assert(va.len() == n && vb.len() == n);
+    assert forall|i: int| 0 <= i < n implies rv(#[trigger] a.exp.t@[i]) <= rv(b.exp.t@[i]) && rv(va[i]) <= rv(vb[i]) by {
+        lemma_epus_is_g(a, lm, i); lemma_epus_is_g(b, lm, i);
+        let us = rv(a.used.epus_t@[i]);
+        assert(us == acc(a.cs, Sel::Epus, i) && rv(b.used.epus_t@[i]) == acc(b.cs, Sel::Epus, i));
+        let p1 = rv(ma[pv]@[i]); let p2 = rv(mb[pv]@[i]); let ch = rv(ma[cgs]@[i]);
+        assert(p1 == acc(a.cs, Sel::Prod(pv), i) && p2 == acc(b.cs, Sel::Prod(pv), i));
+        assert(ch == acc(a.cs, Sel::Prod(cgs), i) && rv(mb[cgs]@[i]) == acc(b.cs, Sel::Prod(cgs), i));
+        lemma_more_onsite_acc(a.cs, b.cs, Sel::Prod(cgs), i, n);
+        lemma_more_onsite_acc(a.cs, b.cs, Sel::Prod(pv), i, n);
+        lemma_acc_nonneg(a.cs, Sel::Prod(pv), i, n); lemma_acc_nonneg(a.cs, Sel::Prod(cgs), i, n);
+        assert(rv(a.prod.t@[i]) == all_src_sum(ma, i) && rv(b.prod.t@[i]) == all_src_sum(mb, i));
+        assert(rv(a.prod.t@[i]) == p1 + ch && rv(b.prod.t@[i]) == p2 + ch);
+        lemma_exp_mono(lm, p1 + ch, p2 + ch, us);
+        lemma_cg_mono(lm, p1, p2, ch, us);
+        assert(rv(a.fm[i]) == fmatch(lm, p1 + ch, us) && rv(b.fm[i]) == fmatch(lm, p2 + ch, us));
+        assert(rv(a.prod.epus_by_src_t@[cgs]@[i]) == pri_cogen(p1, ch, us, rv(a.fm[i])));
+        assert(rv(b.prod.epus_by_src_t@[cgs]@[i]) == pri_cogen(p2, ch, us, rv(b.fm[i])));
+        assert(rv(va[i]) == ch - rv(a.prod.epus_by_src_t@[cgs]@[i]) && rv(vb[i]) == ch - rv(b.prod.epus_by_src_t@[cgs]@[i]));
+    }
+    assert(a.exp.t@.len() == n && b.exp.t@.len() == n);
+    lemma_sumf_le(a.exp.t@, b.exp.t@);
+    assert forall|i: int| 0 <= i < va.len() implies rv(#[trigger] va[i]) <= rv(vb[i]) by { assert(rv(a.exp.t@[i]) <= rv(b.exp.t@[i]) && rv(va[i]) <= rv(vb[i])); }
+    lemma_sumf_le(va, vb);
+    let fg = py(fgrid(wf1, el), y);
+    let ga = rv(a.del.grid_an); let gb = rv(b.del.grid_an); let cg = rv(a.used.cgnus_an); let ea = rv(a.exp.an); let eb = rv(b.exp.an);
+    let xa = esv(a, cgs); let xb = esv(b, cgs);
+    assert(xa == sumf(va) && xb == sumf(vb));
+    assert(xa <= xb);
+    assert(k * ea <= k * eb) by(nonlinear_arith) requires k >= 0real, ea <= eb;
+    assert(xa * gy <= xb * gy) by(nonlinear_arith) requires xa <= xb, gy >= 0real;
+    assert(fg * (gb + cg) <= fg * (ga + cg)) by(nonlinear_arith) requires fg >= 0real, gb <= ga;
+    assert(fg * (gb + cg - k * eb) <= fg * (ga + cg - k * ea)) by(nonlinear_arith) requires fg >= 0real, gb <= ga, k * ea <= k * eb;
+    assert((1real - k) * (xa * gy) <= (1real - k) * (xb * gy)) by(nonlinear_arith) requires 1real - k >= 0real, xa * gy <= xb * gy;
+}
+// ------------------------------------------------------------------------------------------------ the derived factor is the same in both evaluations
+pub proof fn lemma_more_onsite_acc_an(cs: Seq<Energy>, cs2: Seq<Energy>, q: Sel, n: int, nn: nat)
+    requires more_onsite_el(cs, cs2), wf_list(cs, nn), n <= nn, q != Sel::Prod(ProdSource::EL_INSITU),
+    ensures acc_an(cs2, q, n) == acc_an(cs, q, n),
+    decreases n,
+{
+    if n > 0 { lemma_more_onsite_acc_an(cs, cs2, q, n - 1, nn); lemma_more_onsite_acc(cs, cs2, q, n - 1, nn); }
+}
+pub proof fn lemma_c14_cgn_sum_same(w: Seq<Factor>, cs: Seq<Energy>, cs2: Seq<Energy>, n: int, l: Seq<Carrier>)
+    requires more_onsite_el(cs, cs2), wf_list(cs, n as nat), n >= 0,
+    ensures cgn_sum(w, cs2, n, false, l) == cgn_sum(w, cs, n, false, l),
+    decreases l.len(),
+{
+    if l.len() > 0 {
+        lemma_c14_cgn_sum_same(w, cs, cs2, n, l.drop_last());
+        let fuel = l.last();
+        lemma_any_sel_tags(cs, cs2, Sel::CgnFuel(fuel));
+        lemma_more_onsite_acc_an(cs, cs2, Sel::CgnFuel(fuel), n, n as nat);
+        lemma_more_onsite_acc_an(cs, cs2, Sel::Prod(ProdSource::EL_COGEN), n, n as nat);
+    }
+}
+pub proof fn lemma_c14_g_nonneg(o: Seq<Factor>, cs: Seq<Energy>, n: int, y: int, l: Seq<Carrier>)
+    requires nonneg_list(cs), wf_list(cs, n as nat), n >= 0, forall|c: Carrier| py(#[trigger] fgrid(o, c), y) >= 0real,
+    ensures py(cgn_sum(o, cs, n, false, l), y) >= 0real,
+    decreases l.len(),
+{
+    if l.len() > 0 {
+        lemma_c14_g_nonneg(o, cs, n, y, l.drop_last());
+        let fuel = l.last();
+        let u = acc_an(cs, Sel::CgnFuel(fuel), n); let p = acc_an(cs, Sel::Prod(ProdSource::EL_COGEN), n);
+        lemma_acc_an_nonneg(cs, Sel::CgnFuel(fuel), n, n as nat);
+        assert(py(fgrid(o, fuel), y) >= 0real);
+        let f = py(fgrid(o, fuel), y);
+        lemma_c13_ratio(0real, u, p);
+        assert(ratio(u, p) * f >= 0real) by(nonlinear_arith) requires ratio(u, p) >= 0real, f >= 0real;
+    }
+}
+/// hypotheses on the factor set for the general theorem: the electricity shape, no factor of its own for cogenerated electricity,
+/// non-negative grid factors (the derived factor of cogenerated electricity is a weighted sum of them)
+pub open spec fn c14_factors(w: Seq<Factor>) -> bool {
+    &&& c14_shape(w, 1) && c14_shape(w, 2)
+    &&& (forall|j: int| 0 <= j < w.len() ==> (#[trigger] w[j]).source != Source::COGEN)
+    &&& (forall|c: Carrier| py(#[trigger] fgrid(w, c), 1) >= 0real && py(fgrid(w, c), 2) >= 0real)
+}
+#[verifier::spinoff_prover]
+pub proof fn lemma_c14_carrier3(comps: Components, comps2: Components, w: Seq<Factor>, k_exp: f32, lm: bool, x: EnergyPerformance, z: EnergyPerformance, c: Carrier)
+    requires comps_wf(comps.data@), comps_wf(comps2.data@), nonneg_list(comps.data@), nonneg_list(comps2.data@), more_onsite_el(comps.data@, comps2.data@),
+             ep_carriers_ok(comps, k_exp, lm, x), ep_carriers_ok(comps2, k_exp, lm, z),
+             cgn_added(w, x.wfactors.wdata@, comps.data@), cgn_added(w, z.wfactors.wdata@, comps2.data@),
+             0real <= rv(k_exp) <= 1real, c14_factors(w), nsteps(comps.data@) > 0,
+             c13_clear(x.balance_cr@), c13_clear(z.balance_cr@), x.balance_cr@.contains_key(c),
+    ensures z.balance_cr@.contains_key(c), c14_le(x.balance_cr@[c], z.balance_cr@[c]),
+{
+    let cs = comps.data@; let cs2 = comps2.data@; let k = rv(k_exp); let el = Carrier::ELECTRICIDAD;
+    let wf1 = x.wfactors.wdata@; let wf2 = z.wfactors.wdata@;
+    let n = nsteps(cs);
+    assert(nsteps(cs2) == n) by { if cs.len() > 0 { assert(e_vals(cs2[0]).len() == e_vals(cs[0]).len()); } }
+    lemma_avail_tags(cs, cs2, c);
+    assert(z.balance_cr@.contains_key(c));
+    reveal(bfc_post);
+    let bx = x.balance_cr@[c]; let bz = z.balance_cr@[c];
+    let fa = filter_carrier(cs, c); let fb = filter_carrier(cs2, c);
+    let a = Run { cs: fa, used: bx.used, prod: bx.prod, fm: bx.f_match@, exp: bx.exp, del: bx.del };
+    let b = Run { cs: fb, used: bz.used, prod: bz.prod, fm: bz.f_match@, exp: bz.exp, del: bz.del };
+    lemma_filter_carrier(cs, c, n); lemma_filter_carrier(cs2, c, n);
+    lemma_nonneg_filter(cs, c); lemma_nonneg_filter(cs2, c);
+    lemma_more_onsite_filter(cs, cs2, c);
+    assert(e_has_carrier(fa[0], c) && e_has_carrier(fb[0], c));
+    assert(run_n(a) == n && run_n(b) == n) by { assert(e_vals(fa[0]).len() == n && e_vals(fb[0]).len() == n); }
+    assert(clear_run(a) && clear_run(b)) by { assert(clear_prod(bx.prod.t@) && clear_prod(bz.prod.t@)); }
+    // the two factor sets read the same wherever the given set is read, and give the same derived factors
+    lemma_any_sel_tags(cs, cs2, Sel::Prod(ProdSource::EL_COGEN));
+    assert(has_cgn_prod(cs2) == has_cgn_prod(cs));
+    lemma_carriers12();
+    lemma_c14_cgn_sum_same(w, cs, cs2, n as int, carriers12());
+    assert(c13_g(w, cs2) == c13_g(w, cs));
+    let has_pv = any_sel(fa, Sel::Prod(ProdSource::EL_INSITU));
+    if c == el && has_pv {
+        lemma_acc_filter(cs, c, Sel::Prod(ProdSource::EL_COGEN), Sel::Prod(ProdSource::EL_COGEN), 0);
+        let g3 = c13_g(w, cs);
+        assert forall|d: Dest, st: Step| #![trigger fp(wf1, el, Source::INSITU, d, st)] #![trigger fp(wf2, el, Source::INSITU, d, st)]
+            fp(wf1, el, Source::INSITU, d, st) == fp(w, el, Source::INSITU, d, st) && fp(wf2, el, Source::INSITU, d, st) == fp(w, el, Source::INSITU, d, st) by {
+            lemma_c13_lookup(w, wf1, cs, el, Source::INSITU, d, st); lemma_c13_lookup(w, wf2, cs2, el, Source::INSITU, d, st);
+        }
+        lemma_c13_lookup(w, wf1, cs, el, Source::RED, Dest::SUMINISTRO, Step::A); lemma_c13_lookup(w, wf2, cs2, el, Source::RED, Dest::SUMINISTRO, Step::A);
+        assert(fgrid(wf1, el) == fgrid(w, el) && fgrid(wf2, el) == fgrid(w, el));
+        assert(c14_shape(wf1, 1) && c14_shape(wf2, 1) && c14_shape(wf1, 2) && c14_shape(wf2, 2));
+        if any_sel(fa, Sel::Prod(ProdSource::EL_COGEN)) {
+            assert(has_cgn_prod(cs));
+            lemma_c13_lookup(w, wf1, cs, el, Source::COGEN, Dest::A_NEPB, Step::A); lemma_c13_lookup(w, wf1, cs, el, Source::COGEN, Dest::A_RED, Step::A);
+            lemma_c13_lookup(w, wf1, cs, el, Source::COGEN, Dest::A_NEPB, Step::B); lemma_c13_lookup(w, wf1, cs, el, Source::COGEN, Dest::A_RED, Step::B);
+            lemma_c13_lookup(w, wf2, cs2, el, Source::COGEN, Dest::A_NEPB, Step::A); lemma_c13_lookup(w, wf2, cs2, el, Source::COGEN, Dest::A_RED, Step::A);
+            lemma_c13_lookup(w, wf2, cs2, el, Source::COGEN, Dest::A_NEPB, Step::B); lemma_c13_lookup(w, wf2, cs2, el, Source::COGEN, Dest::A_RED, Step::B);
+            lemma_c14_g_nonneg(w, cs, n as int, 1, carriers12()); lemma_c14_g_nonneg(w, cs, n as int, 2, carriers12());
+            assert(c14_cgn_shape(wf1, 1, py(g3, 1)) && c14_cgn_shape(wf2, 1, py(g3, 1)) && c14_cgn_shape(wf1, 2, py(g3, 2)) && c14_cgn_shape(wf2, 2, py(g3, 2)));
+            lemma_c14_el_pair2(wf1, wf2, a, b, lm, bx.we, bz.we, k, 1, py(g3, 1));
+            lemma_c14_el_pair2(wf1, wf2, a, b, lm, bx.we, bz.we, k, 2, py(g3, 2));
+        } else {
+            // no cogenerated electricity: both evaluations use the given set
+            assert(!has_cgn_prod(cs) && !has_cgn_prod(cs2));
+            assert(wf1 == w && wf2 == w);
+            lemma_c14_el_pair(w, a, b, lm, bx.we, bz.we, k, 1);
+            lemma_c14_el_pair(w, a, b, lm, bx.we, bz.we, k, 2);
+        }
+    } else {
+        // same values in: a carrier other than electricity, or electricity without an on-site production component
+        if c != el {
+            assert(!has_pv) by { if has_pv { lemma_has_prod_carrier(fa, c, ProdSource::EL_INSITU); } }
+        }
+        assert forall|s: Source, d: Dest, st: Step| #[trigger] has_fp(wf2, c, s, d, st) == has_fp(wf1, c, s, d, st) && fp(wf2, c, s, d, st) == fp(wf1, c, s, d, st) by {
+            lemma_c13_lookup(w, wf1, cs, c, s, d, st); lemma_c13_lookup(w, wf2, cs2, c, s, d, st);
+            if s == Source::COGEN && c == el {
+                // both sets were extended with the same five derived factors
+                lemma_c14_cogen_keys(w, wf1, wf2, cs, cs2, d, st);
+            }
+        }
+        assert(fp_same(wf1, wf2, c));
+        lemma_c14_same(wf1, wf2, c, a, b, lm, bx.we, bz.we, k);
+    }
+}
+/// the lookups of the derived factors of cogenerated electricity agree in the two extended sets
+pub proof fn lemma_c14_cogen_keys(o: Seq<Factor>, f1: Seq<Factor>, f2: Seq<Factor>, cs: Seq<Energy>, cs2: Seq<Energy>, d: Dest, st: Step)
+    requires cgn_added(o, f1, cs), cgn_added(o, f2, cs2), has_cgn_prod(cs2) == has_cgn_prod(cs), c13_g(o, cs2) == c13_g(o, cs),
+             forall|j: int| 0 <= j < o.len() ==> (#[trigger] o[j]).source != Source::COGEN,
+    ensures has_fp(f2, Carrier::ELECTRICIDAD, Source::COGEN, d, st) == has_fp(f1, Carrier::ELECTRICIDAD, Source::COGEN, d, st),
+            fp(f2, Carrier::ELECTRICIDAD, Source::COGEN, d, st) == fp(f1, Carrier::ELECTRICIDAD, Source::COGEN, d, st),
+{
+    let c = Carrier::ELECTRICIDAD; let s = Source::COGEN;
+    assert forall|j: int| 0 <= j < o.len() implies !fkey(#[trigger] o[j], c, s, d, st) by {}
+    lemma_find_none(o, c, s, d, st);
+    if has_cgn_prod(cs) {
+        let n = o.len() as int;
+        lemma_find_split(f1, n, c, s, d, st); lemma_find_split(f2, n, c, s, d, st);
+        let t = f1.skip(n); let t2 = f2.skip(n);
+        assert(t.len() == 5 && t2.len() == 5);
+        assert(t[0] == f1[n] && t[1] == f1[n + 1] && t[2] == f1[n + 2] && t[3] == f1[n + 3] && t[4] == f1[n + 4]);
+        assert(t2[0] == f2[n] && t2[1] == f2[n + 1] && t2[2] == f2[n + 2] && t2[3] == f2[n + 3] && t2[4] == f2[n + 4]);
+        lemma_find5(t, c, s, d, st); lemma_find5(t2, c, s, d, st);
+    }
+}
+/// C14 (non-renewable primary energy, CO2) at the public entry point, ANY building (with or without cogenerated electricity): the same
+/// building with more on-site electricity production at any steps, everything else equal, any k_exp in [0, 1], with or without load
+/// matching, factors of the regulatory shape: the non-renewable primary energy and the emissions of every carrier and of the whole
+/// building do not increase, at step A and at step B
+pub proof fn thm_c14_nren_co2_cgn(comps: Components, comps2: Components, w: Seq<Factor>, k_exp: f32, area: f32, lm: bool, r: Result<EnergyPerformance>, r2: Result<EnergyPerformance>)
+    requires comps_wf(comps.data@), comps_wf(comps2.data@), nonneg_list(comps.data@), nonneg_list(comps2.data@), more_onsite_el(comps.data@, comps2.data@),
+             ep_post(comps, w, k_exp, area, lm, r), ep_post(comps2, w, k_exp, area, lm, r2), r is Ok, r2 is Ok,
+             0real <= rv(k_exp) <= 1real, c14_factors(w), nsteps(comps.data@) > 0,
+             c13_clear(r->Ok_0.balance_cr@), c13_clear(r2->Ok_0.balance_cr@),
+    ensures forall|c: Carrier| r->Ok_0.balance_cr@.contains_key(c) ==> r2->Ok_0.balance_cr@.contains_key(c) && c14_le(#[trigger] r->Ok_0.balance_cr@[c], r2->Ok_0.balance_cr@[c]),
+            rv(r2->Ok_0.balance.we.a.nren) <= rv(r->Ok_0.balance.we.a.nren), rv(r2->Ok_0.balance.we.a.co2) <= rv(r->Ok_0.balance.we.a.co2),
+            rv(r2->Ok_0.balance.we.b.nren) <= rv(r->Ok_0.balance.we.b.nren), rv(r2->Ok_0.balance.we.b.co2) <= rv(r->Ok_0.balance.we.b.co2),
+{
+    let x = r->Ok_0; let z = r2->Ok_0; let cs = comps.data@; let cs2 = comps2.data@;
+    let bcr = x.balance_cr@; let bcr2 = z.balance_cr@;
+    assert(ep_carriers_ok(comps, k_exp, lm, x) && ep_carriers_ok(comps2, k_exp, lm, z));
+    assert forall|c: Carrier| bcr.contains_key(c) implies bcr2.contains_key(c) && c14_le(#[trigger] bcr[c], bcr2[c]) by { lemma_c14_carrier3(comps, comps2, w, k_exp, lm, x, z, c); }
+    assert forall|c: Carrier| bcr.contains_key(c) == bcr2.contains_key(c) by { lemma_avail_tags(cs, cs2, c); }
+    assert(bcr2.dom() =~= bcr.dom());
+    thm_c04_totals(bcr, comps, x.balance); thm_c04_totals(bcr2, comps2, z.balance);
+    let dom = bcr.dom();
+    let f1 = |q: BalanceCarrier| rv(q.we.a.nren); let f2 = |q: BalanceCarrier| rv(q.we.a.co2); let f3 = |q: BalanceCarrier| rv(q.we.b.nren); let f4 = |q: BalanceCarrier| rv(q.we.b.co2);
+    assert forall|c: Carrier| dom.contains(c) implies #[trigger] gsel(bcr2, f1)(c) <= gsel(bcr, f1)(c) by { assert(c14_le(bcr[c], bcr2[c])); }
+    assert forall|c: Carrier| dom.contains(c) implies #[trigger] gsel(bcr2, f2)(c) <= gsel(bcr, f2)(c) by { assert(c14_le(bcr[c], bcr2[c])); }
+    assert forall|c: Carrier| dom.contains(c) implies #[trigger] gsel(bcr2, f3)(c) <= gsel(bcr, f3)(c) by { assert(c14_le(bcr[c], bcr2[c])); }
+    assert forall|c: Carrier| dom.contains(c) implies #[trigger] gsel(bcr2, f4)(c) <= gsel(bcr, f4)(c) by { assert(c14_le(bcr[c], bcr2[c])); }
+    lemma_csum_le(dom, gsel(bcr, f1), gsel(bcr2, f1), carriers12());
+    lemma_csum_le(dom, gsel(bcr, f2), gsel(bcr2, f2), carriers12());
+    lemma_csum_le(dom, gsel(bcr, f3), gsel(bcr2, f3), carriers12());
+    lemma_csum_le(dom, gsel(bcr, f4), gsel(bcr2, f4), carriers12());
+}
